@@ -132,6 +132,9 @@ func c03Alphabet(tier string) []sym {
 	for _, p := range []string{".tmp.1", ".tmp.0"} {
 		out = append(out, sym{T: "stat", Path: p, Kind: "symx"}, sym{T: "stat", Path: p, Kind: "symabs"})
 	}
+	// a sibling whose name is a directory's name plus a byte that sorts below the separator: it belongs after
+	// everything inside that directory
+	out = append(out, sym{T: "stat", Path: "b.c", Kind: "file"}, sym{T: "stat", Path: "a-", Kind: "dir"}, sym{T: "stat", Path: "b-", Kind: "file"}, sym{T: "stat", Path: "b.c", Kind: "dir"})
 	if tier == "thorough" {
 		out = append(out, sym{T: "stat", Path: "a", Kind: "fifo"}, sym{T: "stat", Path: "b", Kind: "suid"}, sym{T: "stat", Path: ".tmp.2", Kind: "symx"})
 	}
